@@ -99,7 +99,7 @@ OffsetInv ==
 \* (The SCALE family of the replay uses k = 2^-24, 2^-30, 2^20, exact in floating point.)
 MulK(gr, k) == [r \in Rows |-> [c \in Cols |-> IF IsNaN(gr[r][c]) THEN NAN ELSE k * gr[r][c]]]
 ScaleLaw ==
-  \A k \in {2, 3, 8} : LET gk == MulK(g, k) IN
+  \A k \in {2, 3} : LET gk == MulK(g, k) IN
     \A rc \in InteriorCells(H, W) :
       LET r == rc[1]  c == rc[2]
           s0 == SlopeAt(g, H, W, r, c, CX, CY, MUT)   s1 == SlopeAt(gk, H, W, r, c, CX, CY, MUT)
